@@ -348,4 +348,63 @@ theorem revert_read_partial (db : Db) (n p k : Nat) (tv : TV) (h : CohTV db n p 
 example : CohTV (Db.empty.set (0, 0) [(1, 10)]) 0 0 1 (.readExistAndWrite 10 (.update 11)) := by
   simp [CohTV, Db.get, Db.set, Db.empty, SMap.get?]
 
+/-! ### revert, whole track, no force-written substate
+
+The whole-track lift of `revert_value_partial` for the common failure path (a failed transaction
+that force-wrote nothing, i.e. locked no fee vault substate through `FORCE_WRITE`): after
+`revert_non_force_write_changes` the tracked nodes contribute NO substate update at all to the
+final `StateUpdates` (whatever accumulator they are folded into), no node is reported as new, and
+revert cannot panic. With force-written substates the statement is `revert_spec` above (not proved).
+-/
+
+theorem partUpdates_reverted (part : TPart) :
+    partUpdates (part.map (fun ktv => (ktv.1, ktv.2.revertWrites))) = [] := by
+  induction part with
+  | nil => rfl
+  | cons kv rest ih =>
+    simp only [partUpdates, List.map_cons, List.filterMap_cons] at ih ⊢
+    rw [revert_value_partial kv.2]
+    exact ih
+
+theorem suOfParts_reverted (su : DbUpdates) (n : Nat) (parts : List (Nat × TPart)) :
+    suOfParts su n
+      (parts.map (fun pp => (pp.1, pp.2.map (fun ktv => (ktv.1, ktv.2.revertWrites))))) = su := by
+  induction parts with
+  | nil => rfl
+  | cons pp rest ih =>
+    simp only [List.map_cons, suOfParts, partUpdates_reverted, List.isEmpty_nil, if_true]
+    exact ih
+
+theorem suOfNodes_reverted (su : DbUpdates) (nodes : Nodes) :
+    suOfNodes su (nodes.map (fun nn => (nn.1, nn.2.revertWrites))) = su := by
+  induction nodes with
+  | nil => rfl
+  | cons nn rest ih =>
+    simp only [List.map_cons, suOfNodes, TNode.revertWrites, suOfParts_reverted]
+    exact ih
+
+/-- `revert_no_force_whole_track`: for EVERY track without force-written substates, revert
+succeeds, and the reverted track yields exactly the partition deletions as state updates and no
+new node. -/
+theorem revert_no_force_whole_track (t : Track) (hf : t.force = []) :
+    ∃ t', revert t = some t' ∧ t'.force = [] ∧ t'.db = t.db ∧ t'.deleted = t.deleted ∧
+      toStateUpdates t' = ([], suOfDeleted [] t.deleted) := by
+  refine ⟨{ t with
+      nodes := List.map (fun nn => (nn.1, nn.2.revertWrites))
+        (IMap.retain t.nodes (fun _ nd => !nd.isNew)),
+      force := [] },
+    by simp only [revert, hf, applyForce], rfl, rfl, rfl, ?_⟩
+  simp only [toStateUpdates, suOfNodes_reverted, Prod.mk.injEq, and_true]
+  simp only [IMap.retain, TNode.revertWrites, List.filter_map, List.filter_filter, List.map_map]
+  rw [List.map_eq_nil_iff, List.filter_eq_nil_iff]
+  intro nn _
+  simp only [Function.comp]
+  cases nn.2.isNew <;> simp
+
+/-- non-vacuity: a track with a written substate on an existing node and a created node, no force
+write — revert drops both -/
+example : (revert (run (Db.empty.set (0, 0) [(1, 10)])
+      [.get 0 0 1, .set 0 0 1 5, .create 3 [(0, [(1, 1)])]])).map toStateUpdates
+    = some ([], []) := by decide
+
 end Radix.Track
